@@ -809,6 +809,58 @@ def inline_new_members(trees, shape_all):
                         h.body = _strip_doc(m.body)
                         methods[m.name] = h
     log = {}
+    # new module-level functions that other modules import by name: inlined there like local helpers (N1 across modules)
+    pinned_names = set()
+    for sh in shape_all.values():
+        pinned_names |= set(sh.get("names", ())) | {q.split(".")[-1] for q in sh["functions"]}
+    for mname, tree in trees.items():
+        sh = shape_all.get(mname)
+        if sh is None:
+            continue
+        for st in list(tree.body):
+            if not (isinstance(st, ast.FunctionDef) and st.name not in sh["functions"] and st.name not in pinned_names
+                    and st.name not in pinned_attrs and len(defs.get(st.name, ())) == 1 and not st.decorator_list):
+                continue
+            h = Helper(st)
+            if not h.usable():
+                continue
+            prepared = False
+            for oname, otree in trees.items():
+                if oname == mname:
+                    continue
+                imported = any(isinstance(i, ast.ImportFrom) and any(a.name == st.name and a.asname in (None, st.name) for a in i.names)
+                               for i in otree.body)
+                rebound = any(isinstance(n, ast.Name) and n.id == st.name and isinstance(n.ctx, (ast.Store, ast.Del)) for n in ast.walk(otree))
+                if not imported or rebound:
+                    continue
+                if not prepared:
+                    forward_substitute(st, fn_locals(st) - set(h.params))
+                    h.body = _strip_doc(st.body)
+                    prepared = True
+                done = []
+                for q, fn in functions_of(otree).items():
+                    for _round in range(3):
+                        if not _inline_in_function(fn, {st.name: h}, {}, done):
+                            break
+                if done:
+                    # names of the defining module the inlined body refers to are made visible where it now stands
+                    bound_here = {n.id for n in ast.walk(otree) if isinstance(n, ast.Name) and isinstance(n.ctx, ast.Store)} | \
+                        {(a.asname or a.name).split(".")[0] for i in otree.body if isinstance(i, (ast.Import, ast.ImportFrom)) for a in i.names} | \
+                        {x.name for x in otree.body if isinstance(x, (ast.FunctionDef, ast.ClassDef))}
+                    top = {x.name for x in tree.body if isinstance(x, (ast.FunctionDef, ast.ClassDef))} | \
+                        {(a.asname or a.name).split(".")[0] for i in tree.body if isinstance(i, (ast.Import, ast.ImportFrom)) for a in i.names} | \
+                        {t.id for x in tree.body if isinstance(x, ast.Assign) for t in x.targets if isinstance(t, ast.Name)}
+                    need = sorted(({n.id for n in ast.walk(st) if isinstance(n, ast.Name) and isinstance(n.ctx, ast.Load)} & top) - bound_here)
+                    if need:
+                        imp = ast.ImportFrom(module=mname, names=[ast.alias(name=x, asname=None) for x in need], level=0)
+                        k = next((j for j, x in enumerate(otree.body) if isinstance(x, (ast.Import, ast.ImportFrom))), 0)
+                        otree.body.insert(k, ast.copy_location(imp, otree.body[k] if otree.body else imp))
+                    ast.fix_missing_locations(otree)
+                    log.setdefault(oname, [])
+                    log[oname] = sorted(set(log[oname]) | set(done))
+            if prepared and not any(isinstance(n, ast.Name) and n.id == st.name and isinstance(n.ctx, ast.Load)
+                                    for t_ in trees.values() for n in ast.walk(t_)):
+                tree.body.remove(st)   # every use was expanded: the helper itself is no longer part of the program
     if not props and not methods:
         return log
     for mname, tree in trees.items():
